@@ -45,6 +45,15 @@ def dense_to_index(a, common):
                 v = int(v)
                 if v != common:
                     entries[(v,) + tuple(int(p) for p in pos)] = numpy.nonzero(col == v)[0].astype(U32)
+    # The order in which the entries were inserted is free (histories, updates and files produce any order):
+    # one third of the indexes list their entries in ascending order, one third descending, one third rotated.
+    keys = list(entries)
+    mode = (len(keys) + int(a.shape[0])) % 3
+    if mode == 1:
+        keys.reverse()
+    elif mode == 2:
+        keys = keys[1:] + keys[:1]
+    entries = {k: entries[k] for k in keys}
     return iindex(entries, common, tuple(int(s) for s in a.shape))
 
 
@@ -251,7 +260,32 @@ def cube_case(rng, ndims=None, n=None, max_axes=3, big_extent=False, allow_outsi
 
 
 def cube_dims(case):
-    return [dense_to_index(a, c) for a, c in zip(case["dense"], case["commons"])]
+    dims = [dense_to_index(a, c) for a, c in zip(case["dense"], case["commons"])]
+    for pos, j in case.get("alias", []):
+        dims[pos] = dims[j]          # the very same index object standing for two dimensions
+    return dims
+
+
+def add_alias(rng, case):
+    """Make one dimension of the cube case occur twice (a variable crossed with itself): the dense array, common
+    value, extent and explicit shape are repeated at a random position and cube_dims() hands out ONE object for
+    both.  Only for checks that never change a dimension in place."""
+    nd = len(case["dense"])
+    if not 1 <= nd <= 3:
+        return case
+    j = int(rng.integers(0, nd))
+    pos = int(rng.integers(0, nd + 1))
+    for key in ("dense", "commons", "extents"):
+        lst = list(case[key])
+        lst.insert(pos, lst[j])
+        case[key] = lst
+    if case.get("shape") is not None:
+        shp = list(case["shape"])
+        shp.insert(pos, shp[j])
+        case["shape"] = tuple(shp)
+    src = j if j < pos else j + 1
+    case["alias"] = [[pos, src]] if pos > src else [[src, pos]]
+    return case
 
 
 def lopsided_cube_case(rng, n=None, frequent_explicit=True):
